@@ -34,28 +34,51 @@ namespace cfg {
 struct Ev1 { uint32_t value; };
 struct Ev2 { uint64_t a, b; };   // a second event type: react<TEvent>/query<TEvent> are templates
 
-#define VERIF_CALLBACKS(SID, INJ)                                                                                                   \
-	void entryGuard(GuardControl& c) { mon::hub<mon::FLV_GUARD>(c, ffsm2::Method::ENTRY_GUARD, SID, INJ, &this->mem); }                     \
-	void enter(PlanControl& c) { mon::hub<mon::FLV_PLAN>(c, ffsm2::Method::ENTER, SID, INJ, &this->mem); }                                  \
-	void reenter(PlanControl& c) { mon::hub<mon::FLV_PLAN>(c, ffsm2::Method::REENTER, SID, INJ, &this->mem); }                              \
-	void preUpdate(FullControl& c) { mon::hub<mon::FLV_FULL>(c, ffsm2::Method::PRE_UPDATE, SID, INJ, &this->mem); }                         \
-	void update(FullControl& c) { mon::hub<mon::FLV_FULL>(c, ffsm2::Method::UPDATE, SID, INJ, &this->mem); }                                \
-	void postUpdate(FullControl& c) { mon::hub<mon::FLV_FULL>(c, ffsm2::Method::POST_UPDATE, SID, INJ, &this->mem); }                       \
-	void preReact(const Ev1& e, FullControl& c) { mon::hub<mon::FLV_FULL>(c, ffsm2::Method::PRE_REACT, SID, INJ, &this->mem, &e); }         \
-	void react(const Ev1& e, FullControl& c) { mon::hub<mon::FLV_FULL>(c, ffsm2::Method::REACT, SID, INJ, &this->mem, &e); }                \
-	void postReact(const Ev1& e, FullControl& c) { mon::hub<mon::FLV_FULL>(c, ffsm2::Method::POST_REACT, SID, INJ, &this->mem, &e); }       \
-	void query(Ev1& e, ConstControl& c) const { mon::hub<mon::FLV_CONST>(c, ffsm2::Method::QUERY, SID, INJ, &this->mem, &e); }              \
-	void preReact(const Ev2& e, FullControl& c) { mon::hub<mon::FLV_FULL>(c, ffsm2::Method::PRE_REACT, SID, INJ, &this->mem, &e); }         \
-	void react(const Ev2& e, FullControl& c) { mon::hub<mon::FLV_FULL>(c, ffsm2::Method::REACT, SID, INJ, &this->mem, &e); }                \
-	void postReact(const Ev2& e, FullControl& c) { mon::hub<mon::FLV_FULL>(c, ffsm2::Method::POST_REACT, SID, INJ, &this->mem, &e); }       \
-	void query(Ev2& e, ConstControl& c) const { mon::hub<mon::FLV_CONST>(c, ffsm2::Method::QUERY, SID, INJ, &this->mem, &e); }              \
-	void exitGuard(GuardControl& c) { mon::hub<mon::FLV_GUARD>(c, ffsm2::Method::EXIT_GUARD, SID, INJ, &this->mem); }                       \
-	void exit(PlanControl& c) { mon::hub<mon::FLV_PLAN>(c, ffsm2::Method::EXIT, SID, INJ, &this->mem); }
+// PRE: "virtual" or nothing (injections, CFG_VIRT); POST: "const" (CFG_CONSTCB; the event callbacks cannot be const: the
+// library casts them to a non-const member pointer) / "noexcept" (CFG_VIRT) / nothing
+#define VERIF_CALLBACKS(SID, INJ, PRE, POST, EVPOST)                                                                                              \
+	PRE void entryGuard(GuardControl& c) POST { mon::hub<mon::FLV_GUARD>(c, ffsm2::Method::ENTRY_GUARD, SID, INJ, &this->mem); }           \
+	PRE void enter(PlanControl& c) POST { mon::hub<mon::FLV_PLAN>(c, ffsm2::Method::ENTER, SID, INJ, &this->mem); }                        \
+	PRE void reenter(PlanControl& c) POST { mon::hub<mon::FLV_PLAN>(c, ffsm2::Method::REENTER, SID, INJ, &this->mem); }                    \
+	PRE void preUpdate(FullControl& c) POST { mon::hub<mon::FLV_FULL>(c, ffsm2::Method::PRE_UPDATE, SID, INJ, &this->mem); }               \
+	PRE void update(FullControl& c) POST { mon::hub<mon::FLV_FULL>(c, ffsm2::Method::UPDATE, SID, INJ, &this->mem); }                      \
+	PRE void postUpdate(FullControl& c) POST { mon::hub<mon::FLV_FULL>(c, ffsm2::Method::POST_UPDATE, SID, INJ, &this->mem); }             \
+	PRE void preReact(const Ev1& e, FullControl& c) EVPOST { mon::hub<mon::FLV_FULL>(c, ffsm2::Method::PRE_REACT, SID, INJ, &this->mem, &e); } \
+	PRE void react(const Ev1& e, FullControl& c) EVPOST { mon::hub<mon::FLV_FULL>(c, ffsm2::Method::REACT, SID, INJ, &this->mem, &e); }      \
+	PRE void postReact(const Ev1& e, FullControl& c) EVPOST { mon::hub<mon::FLV_FULL>(c, ffsm2::Method::POST_REACT, SID, INJ, &this->mem, &e); } \
+	PRE void query(Ev1& e, ConstControl& c) const VERIF_QUERY_POST { mon::hub<mon::FLV_CONST>(c, ffsm2::Method::QUERY, SID, INJ, &this->mem, &e); }         \
+	PRE void preReact(const Ev2& e, FullControl& c) EVPOST { mon::hub<mon::FLV_FULL>(c, ffsm2::Method::PRE_REACT, SID, INJ, &this->mem, &e); } \
+	PRE void react(const Ev2& e, FullControl& c) EVPOST { mon::hub<mon::FLV_FULL>(c, ffsm2::Method::REACT, SID, INJ, &this->mem, &e); }      \
+	PRE void postReact(const Ev2& e, FullControl& c) EVPOST { mon::hub<mon::FLV_FULL>(c, ffsm2::Method::POST_REACT, SID, INJ, &this->mem, &e); } \
+	PRE void query(Ev2& e, ConstControl& c) const VERIF_QUERY_POST { mon::hub<mon::FLV_CONST>(c, ffsm2::Method::QUERY, SID, INJ, &this->mem, &e); }         \
+	PRE void exitGuard(GuardControl& c) POST { mon::hub<mon::FLV_GUARD>(c, ffsm2::Method::EXIT_GUARD, SID, INJ, &this->mem); }             \
+	PRE void exit(PlanControl& c) POST { mon::hub<mon::FLV_PLAN>(c, ffsm2::Method::EXIT, SID, INJ, &this->mem); }
+
+#if CFG_VIRT
+#define VERIF_QUERY_POST noexcept
+#else
+#define VERIF_QUERY_POST
+#endif
+#if CFG_VIRT
+// (the library's default stubs are noexcept and override a virtual callback of an injection; whatever overrides
+// them in turn - the state's own callbacks - must then be noexcept as well)
+#define VERIF_INJ_PRE virtual
+#define VERIF_INJ_POST noexcept
+#define VERIF_OWN_POST noexcept
+#elif CFG_CONSTCB
+#define VERIF_INJ_PRE
+#define VERIF_INJ_POST
+#define VERIF_OWN_POST const
+#else
+#define VERIF_INJ_PRE
+#define VERIF_INJ_POST
+#define VERIF_OWN_POST
+#endif
 
 // injections: plain states that record themselves with their index
 template <unsigned SID, unsigned J>
 struct Inj : FSM::State {
-	VERIF_CALLBACKS(SID, J)
+	VERIF_CALLBACKS(SID, J, VERIF_INJ_PRE, VERIF_INJ_POST, VERIF_INJ_POST)
 	mutable uint64_t mem = 0x1000u + SID * 16 + J;
 };
 
@@ -74,7 +97,7 @@ struct St : BaseOf<I, std::make_index_sequence<K>>::Type {
 	using typename Base::PlanControl;
 	using typename Base::FullControl;
 	using typename Base::ConstControl;
-	VERIF_CALLBACKS(I, 0)
+	VERIF_CALLBACKS(I, 0, , VERIF_OWN_POST, VERIF_QUERY_POST)
 	mutable uint64_t mem = 0x51A7E000u + I;
 };
 
@@ -83,12 +106,12 @@ struct Br : FSM::State {};
 
 struct Rt : BaseOf<ROOT, std::make_index_sequence<K>>::Type {
 	using Base = BaseOf<ROOT, std::make_index_sequence<K>>::Type;
-	VERIF_CALLBACKS(ROOT, 0)
+	VERIF_CALLBACKS(ROOT, 0, , VERIF_OWN_POST, VERIF_QUERY_POST)
 #if HAS_PLANS && (CFG_HEADOUT & 1)
-	void planSucceeded(FullControl& c) { mon::hub<mon::FLV_FULL>(c, ffsm2::Method::PLAN_SUCCEEDED, ROOT, 0, &this->mem); }
+	void planSucceeded(FullControl& c) VERIF_OWN_POST { mon::hub<mon::FLV_FULL>(c, ffsm2::Method::PLAN_SUCCEEDED, ROOT, 0, &this->mem); }
 #endif
 #if HAS_PLANS && (CFG_HEADOUT & 2)
-	void planFailed(FullControl& c) { mon::hub<mon::FLV_FULL>(c, ffsm2::Method::PLAN_FAILED, ROOT, 0, &this->mem); }
+	void planFailed(FullControl& c) VERIF_OWN_POST { mon::hub<mon::FLV_FULL>(c, ffsm2::Method::PLAN_FAILED, ROOT, 0, &this->mem); }
 #endif
 	mutable uint64_t mem = 0x51A7E0FFu;
 };
